@@ -119,6 +119,40 @@ def _convert_collection(docs):
     return TextQueryTestBackend().convert(SigmaCollection.from_dicts(copy.deepcopy(docs)))
 
 
+_ALIASES = {"ignorecase": "i", "multiline": "m", "dotall": "s"}
+
+
+def _alias_collision(doc) -> bool:
+    """Two keys of one detection that differ only in the spelling of a regular-expression flag
+    modifier (re|i = re|ignorecase ...), at least one of them with a list of values."""
+    for det in doc.get("detection", {}).values():
+        if not isinstance(det, dict):
+            continue
+        seen = {}
+        for k, v in det.items():
+            canon = "|".join(_ALIASES.get(p, p) for p in k.split("|"))
+            seen.setdefault(canon, []).append(v)
+        if any(len(vs) > 1 and any(isinstance(v, list) and len(v) > 1 for v in vs) for vs in seen.values()):
+            return True
+    return False
+
+
+def _same_meaning(qa, qb) -> bool:
+    """Queries are equal as texts, or pairwise equivalent as boolean formulas over their decoded leaves
+    (a faithful dict may list merged items in another order)."""
+    if qa == qb:
+        return True
+    if len(qa) != len(qb):
+        return False
+    from vf.ref.formula import equivalent
+    from vf.target.decoder import DecodeError, decode as qdecode
+    cfg = full_cfg(CFG)
+    try:
+        return all(equivalent(qdecode(a, cfg), qdecode(b, cfg))[0] for a, b in zip(qa, qb))
+    except DecodeError:
+        return False
+
+
 def check_case(case: dict) -> Outcome:
     import yaml
     from sigma.correlations import SigmaCorrelationRule
@@ -180,7 +214,7 @@ def check_case(case: dict) -> Outcome:
         except (SigmaError, NotImplementedError) as e:
             out.fail(sig(f"C06:transformed:reload-failed:{_tclass(case['transform'])}"), f"{case['transform']}: to_dict() gave {d1.get('detection')!r} which fails to load/convert: {e}")
             return out
-        if q2 != q_obj:
+        if not _same_meaning(q2, q_obj):
             out.fail(sig(f"C06:transformed:queries-changed:{_tclass(case['transform'])}"),
                      f"{case['transform']}: transformed object converts to {q_obj}, its to_dict() {d1.get('detection')!r} reloads to {q2}")
         return out
@@ -189,7 +223,10 @@ def check_case(case: dict) -> Outcome:
     try:
         d1 = obj.to_dict()
     except SigmaError as e:
-        out.fail(f"C06:{kind}:to_dict-refused", f"freshly loaded object can't be serialised: {e}")
+        cls_ = ""
+        if kind == "rule" and "Can't merge value lists" in str(e) and _alias_collision(doc):
+            cls_ = ":alias-spelled-keys-with-value-list"
+        out.fail(f"C06:{kind}:to_dict-refused{cls_}", f"freshly loaded object can't be serialised: {e}; detection {doc.get('detection')!r}")
         return out
     except Exception as e:  # noqa
         out.fail(f"C06:{kind}:to_dict-exception:{type(e).__name__}", f"{e!r} for {case['doc']!r}"[:500])
@@ -220,7 +257,7 @@ def check_case(case: dict) -> Outcome:
     except (SigmaError, NotImplementedError) as e:
         out.skipped = "not convertible: " + type(e).__name__
         return out
-    if q1 != q2:
+    if q1 != q2 and (kind != "rule" or not _same_meaning(q1, q2)):
         out.fail(sig(f"C06:{kind}:queries-changed"), f"original converts to {q1}, reloaded to_dict() {d1.get('detection', d1.get('correlation', d1.get('filter')))!r} to {q2}"[:900])
     return out
 
@@ -255,6 +292,28 @@ def rule_cases(draw):
     if draw(st.integers(0, 3)) == 0:
         return {"kind": "transformed", "doc": doc, "transform": draw(st.sampled_from(TRANSFORMS))}
     return {"kind": "rule", "doc": doc}
+
+
+ALIAS_CHAINS = [[""], ["|contains"], ["|startswith"], ["|cased"], ["|re"], ["|re|i", "|re|ignorecase"], ["|re|m", "|re|multiline"],
+                ["|re|s", "|re|dotall"], ["|contains|cased"]]
+
+
+@st.composite
+def collision_cases(draw):
+    """Several items that end up under one dict key: flag aliases (re|i = re|ignorecase) without a pipeline,
+    many-to-one field mapping with one; optionally an explicit '|all' item on the same key."""
+    group = draw(st.sampled_from(ALIAS_CHAINS))
+    sel = {}
+    for _ in range(draw(st.integers(2, 6))):
+        key = draw(st.sampled_from(["f", "f", "g", "h", "k"])) + draw(st.sampled_from(group)) + ("|all" if draw(st.integers(0, 2)) == 0 else "")
+        if key in sel:
+            continue
+        one = st.sampled_from(["x", "y", "z", "w*", "v.v"])
+        sel[key] = draw(st.one_of(one, one, st.lists(one, min_size=1, max_size=3, unique=True)))
+    doc = {"title": "t", "logsource": {"category": "c"}, "detection": {"sel": sel, "o": {"q": 1}, "condition": draw(st.sampled_from(["sel", "not sel", "sel and not o"]))}}
+    if len(group) == 2 and draw(st.booleans()):
+        return {"kind": "rule", "doc": doc}
+    return {"kind": "transformed", "doc": doc, "transform": {"type": "field_name_mapping", "mapping": draw(st.sampled_from([{"g": "f", "h": "f"}, {"g": "f"}, {"f": "k", "g": "k", "h": "k"}]))}}
 
 
 @st.composite
@@ -312,3 +371,4 @@ def run(ctx) -> None:
     ctx.hyp(rule_cases(), n, salt=1)
     ctx.hyp(corr_cases(), n // 2, salt=2)
     ctx.hyp(filter_cases(), n // 3, salt=3)
+    ctx.hyp(collision_cases(), n, salt=4)
